@@ -38,6 +38,30 @@ Check (statement_is_one_line : forall q : quad, wf_quad q = true ->
 Check (one_line_per_quad : forall qs : list quad, wf_quads qs = true ->
   count 10 (nq_write qs) = length qs /\ count 13 (nq_write qs) = 0%nat).
 
+(* (5) the other public entry points.  A serialiser used for several calls appends, and the result is
+   the serialisation of the concatenation; a statement composed by hand from the public
+   write_triple / write_term is the serialiser's statement *)
+Check (nq_write_app : forall a b : list quad, nq_write (a ++ b) = nq_write a ++ nq_write b).
+Check (nt_write_app : forall a b : list triple, nt_write (a ++ b) = nt_write a ++ nt_write b).
+Check (nq_write_calls_concat : forall calls : list (list quad),
+  nq_write_calls calls = nq_write (concat calls)).
+Check (nt_write_calls_concat : forall calls : list (list triple),
+  nt_write_calls calls = nt_write (concat calls)).
+Check (write_calls_ok_concat : forall (nq : bool) (calls : list (list quad)) (bytes : list N),
+  write_calls_ok nq calls bytes
+  = if nq then write_ok (concat calls) bytes else nt_write_ok (concat calls) bytes).
+Check (compose_quad_spec : forall q : quad, compose_quad q = nq_write_quad q).
+Check (write_term_triple : forall s p o : term,
+  write_term (Triple s p o) = [60; 60] ++ write_triple s p o ++ [62; 62]).
+(* generalised RDF (variables, any term anywhere): strict well-formedness is a special case, and
+   the one-statement-per-line shape also holds there *)
+Check (wf_at_gwf : forall (t : term) (p : pos), wf_at p t = true -> gwf t = true).
+Check (wf_quads_gwf : forall qs : list quad, wf_quads qs = true -> gwf_quads qs = true).
+Check (gen_statement_is_one_line : forall q : quad, gwf_quad q = true ->
+  exists body, nq_write_quad q = body ++ [10] /\ count 10 body = 0%nat /\ count 13 body = 0%nat).
+Check (gen_one_line_per_quad : forall qs : list quad, gwf_quads qs = true ->
+  count 10 (nq_write qs) = length qs /\ count 13 (nq_write qs) = 0%nat).
+
 (* ---- non-vacuity ---- *)
 (* three statements: blank nodes a.b / 1 / b-middle-dot, a language-tagged literal with LF, quote,
    backslash, CR, U+0000, e-acute and a non-BMP character, a doubly nested quoted triple with an
@@ -59,6 +83,27 @@ Example ex_tags :
   map langtag_ok [[101;110]; [101;110;45;85;83]; [120;45;49;50]; [101;110;45]; [49;101]; [101;110;45;45;97]; []]
   = [true; true; true; false; false; false; false].
 Proof. vm_compute. reflexivity. Qed.
+
+(* a generalised statement: literal subject, variable predicate, quoted triple with a blank-node
+   predicate as object, variable graph name: generalised-well-formed, not strictly well-formed *)
+Definition ex_gen : list quad :=
+  [ (LitDt [97;10] xsd_string, Var [120;49], Triple (Var [121]) (Bnode [98]) (LitLang [] [101;110]), Some (Var [103])) ].
+Example ex_gen_wf : gwf_quads ex_gen = true /\ wf_quads ex_gen = false.
+Proof. vm_compute. split; reflexivity. Qed.
+Example ex_gen_bytes :
+  gen_case_ok true ex_gen
+    [34;97;92;110;34;32;63;120;49;32;60;60;63;121;32;95;58;98;32;34;34;64;101;110;62;62;32;63;103;46;10] = true.
+Proof. vm_compute. reflexivity. Qed.
+(* three calls (one of them empty) on one serialiser *)
+Example ex_calls : nq_write_calls [[nth 0 ex_doc (Iri [], Iri [], Iri [], None)]; []; tl ex_doc] = nq_write ex_doc.
+Proof. vm_compute. reflexivity. Qed.
+Example ex_calls_ok : case_calls_ok true [[nth 0 ex_doc (Iri [], Iri [], Iri [], None)]; []; tl ex_doc] (nq_write ex_doc) = true.
+Proof. vm_compute. reflexivity. Qed.
+(* a variable name with an end of line is not generalised-well-formed (and would break the line shape) *)
+Example bad_var_refuted :
+  let d := [(Var [97;10;98], Iri [112], Iri [111], None)] in
+  gwf_quads d = false /\ count 10 (nq_write d) = 2%nat.
+Proof. vm_compute. split; reflexivity. Qed.
 
 (* ---- the hypotheses are needed: ill-formed terms do not round-trip ---- *)
 (* a label ending in a dot: the label is read without it and a stray dot remains; rejected *)
@@ -93,3 +138,16 @@ Print Assumptions one_line_per_quad.
 Print Assumptions ex_doc_roundtrip.
 Print Assumptions bad_label_refuted.
 Print Assumptions bad_iri_refuted.
+Print Assumptions nq_write_app.
+Print Assumptions nt_write_app.
+Print Assumptions nq_write_calls_concat.
+Print Assumptions nt_write_calls_concat.
+Print Assumptions write_calls_ok_concat.
+Print Assumptions compose_quad_spec.
+Print Assumptions write_term_triple.
+Print Assumptions wf_at_gwf.
+Print Assumptions wf_quads_gwf.
+Print Assumptions gen_statement_is_one_line.
+Print Assumptions gen_one_line_per_quad.
+Print Assumptions ex_gen_bytes.
+Print Assumptions ex_calls_ok.
